@@ -126,8 +126,11 @@ func taskYield(site int) {
 	if !sh.active || sh.cur < 0 {
 		return
 	}
-	if site >= 0 && !sh.siteEnabled[site] {
-		return
+	if site >= 0 {
+		probes[prSiteBase+site]++
+		if !sh.siteEnabled[site] {
+			return
+		}
 	}
 	t := sh.cur
 	var b [4]byte
@@ -146,6 +149,9 @@ func taskYieldForced(site int) {
 		return
 	}
 	t := sh.cur
+	if site >= 0 {
+		probes[prSiteBase+site]++
+	}
 	var b [4]byte
 	b[0] = msgYield
 	b[1] = byte(t)
